@@ -169,3 +169,26 @@ def merge_ab_3d(oi: int, present: int) -> bool:
     post: _
     """
     return _merge_keeps_other_variables("ab", OTHERS[oi], 3, present)
+
+
+# family names that themselves contain the letters x / y / z before the component letter (flux_x, max_y, ...): the
+# merge must find the component position among several candidate positions
+BASES = ["flux", "max", "xa", "ax", "x", "xx", "x_x", "xray_flux", "y", "yx", "zx_y", "a_x"]
+
+
+def merge_bases_with_component_letters_2d(bi: int, present: int) -> bool:
+    """
+    pre: 0 <= bi < 12
+    pre: 0 <= present < 8
+    post: _
+    """
+    return _merge_keeps_other_variables(BASES[bi], "density", 2, present)
+
+
+def merge_bases_with_component_letters_3d(bi: int, present: int) -> bool:
+    """
+    pre: 0 <= bi < 12
+    pre: 0 <= present < 8
+    post: _
+    """
+    return _merge_keeps_other_variables(BASES[bi], "density", 3, present)
